@@ -324,3 +324,111 @@ Proof.
   - destruct (j_pc th) eqn:Hpc; auto;
       (destruct (H t th Hth ltac:(congruence)) as [r Hc]; rewrite Hall in Hc; discriminate).
 Qed.
+
+(* ================================================================ proxy targets on chains *)
+
+(* the destination "result at the end of k's next-chain, at path q" *)
+Inductive endd (c : jconfig) : nat -> path -> dest -> Prop :=
+| ed_here : forall k q res, p_next (getp c k) = None -> p_result (getp c k) = Some res -> endd c k q (res_dest res q)
+| ed_next : forall k k' q d, p_next (getp c k) = Some k' -> endd c k' q d -> endd c k q d.
+
+Lemma endd_mono : forall c c' k q d,
+  (forall k q, p_next (getp c k) = Some q -> p_next (getp c' k) = Some q) ->
+  (forall k res, p_next (getp c k) = None -> p_result (getp c k) = Some res ->
+                 p_next (getp c' k) = None /\ p_result (getp c' k) = Some res) ->
+  endd c k q d -> endd c' k q d.
+Proof.
+  intros c c' k q d Hm He H. induction H as [k q res Hn Hr|k k' q d Hn H IH].
+  - destruct (He k res Hn Hr) as [A B]. apply ed_here; assumption.
+  - eapply ed_next; eauto.
+Qed.
+
+Lemma endd_nreach : forall c a r q res, nreach c a r -> p_next (getp c r) = None -> p_result (getp c r) = Some res ->
+  endd c a q (res_dest res q).
+Proof. intros c a r q res H Hn Hr. induction H; [apply ed_here; assumption|eapply ed_next; eauto]. Qed.
+
+Lemma endd_det : forall c a q d r res, endd c a q d -> nreach c a r ->
+  p_next (getp c r) = None -> p_result (getp c r) = Some res -> d = res_dest res q.
+Proof.
+  intros c a q d r res H. revert r res. induction H as [k q res0 Hn Hr|k k' q d Hn H IH]; intros r res Hnr Hrn Hrr.
+  - inversion Hnr; subst; [congruence|congruence].
+  - inversion Hnr as [|a b e Hn' Hnr']; subst; [congruence|]. assert (b = k') by congruence. subst. eauto.
+Qed.
+
+(* a promise that has a result and no next edge keeps both *)
+Lemma resend_step : forall v c t c', JR c -> jstep v c t = Some c' ->
+  forall k res, p_next (getp c k) = None -> p_result (getp c k) = Some res ->
+                p_next (getp c' k) = None /\ p_result (getp c' k) = Some res.
+Proof.
+  intros v c t c' HR Hs.
+  unfold jstep in Hs. destruct (nth_error (jthreads c) t) as [th|] eqn:Hth; [|discriminate].
+  pose proof (fun k H => proj2 (proj2 (R_begin c HR k) H)) as Hcr.
+  junfold Hs. jexplode Hs; inversion Hs; subst; clear Hs.
+  all: unfold resolve_entry, do_known, do_final; goal_matches.
+  all: own_phase HR Hth.
+  all: norm_negb.
+  all: intros k0 res0 Hn0 Hr0.
+  all: repeat progress (autorewrite with getp_simp; rewrite ?next_close_sigs, ?result_close_sigs).
+  all: eqb_all; simpl; rewrite ?next_close_joined, ?result_close_joined; simpl; try (split; assumption).
+  all: try (exfalso; specialize (Hpre eq_refl); destruct Hpre as [_ Hrn]; congruence).
+  all: try (specialize (Hpost eq_refl); destruct Hpost as [_ Hrs]; split; [assumption|congruence]).
+  all: exfalso; match goal with H : p_caller (getp _ ?k) = true |- _ => pose proof (Hcr k H) end; congruence.
+Qed.
+
+(* a proxy's target is the result at the end of its owner's chain, at its path *)
+Definition TG (c : jconfig) : Prop :=
+  forall x px, nth_error (jproxies c) x = Some px ->
+    forall d, jx_target px = Some d -> endd c (jx_owner px) (jx_path px) d.
+
+Lemma TG_step : forall v c t c', JR c -> JE4 c -> JX c -> TG c -> jstep v c t = Some c' -> TG c'.
+Proof.
+  intros v c t c' HR HE HX HT Hs.
+  pose proof (next_mono_step v c t c' HE Hs) as Hmono.
+  pose proof (resend_step v c t c' HR Hs) as Hend.
+  assert (Hed : forall k q d, endd c k q d -> endd c' k q d) by (intros; eapply endd_mono; eauto).
+  clear Hmono Hend.
+  unfold jstep in Hs. destruct (nth_error (jthreads c) t) as [th|] eqn:Hth; [|discriminate].
+  destruct (X_thr c HX t th Hth) as [_ Hxpc].
+  assert (Hact : jphase (j_cur th) th = true -> p_next (getp c (j_cur th)) = None).
+  { intros Hp. pose proof (jcount_mem _ _ _ _ Hth Hp) as Hpos. rewrite (HE (j_cur th)) in Hpos.
+    apply act_next. destruct (act (getp c (j_cur th))); [reflexivity|lia]. }
+  junfold Hs. jexplode Hs; inversion Hs; subst; clear Hs.
+  all: unfold resolve_entry, do_known, do_final in *; goal_matches.
+  all: own_phase HR Hth.
+  all: unfold jphase, jpre, jpost in Hact;
+       repeat match goal with H : j_pc _ = _ |- _ => rewrite H in Hact end;
+       repeat match goal with H : j_pc _ = _ |- _ => rewrite H in Hxpc end; rewrite ?Nat.eqb_refl in Hact; simpl in Hact.
+  all: intros x0 px0 Hx0 d0 Hd0; simpl in Hx0; jpx_cases Hx0.
+  all: try (apply Hed; exact (HT _ _ Hx0 _ Hd0)); try (apply Hed; exact (HT _ _ Hx0' _ Hd0)).
+  all: try discriminate Hd0.
+  all: simpl in Hd0 |- *; try (apply Hed; exact (HT _ _ Hb0 _ Hd0)).
+  all: inversion Hd0; subst d0; apply Hed.
+  all: specialize (Hpost eq_refl); destruct Hpost as [_ Hrs].
+  all: pose proof (Hxpc n ltac:(left; reflexivity)) as Hn; unfold own in Hn; rewrite (getx_nth _ _ _ Hb0) in Hn.
+  all: exact (endd_nreach c _ _ _ _ Hn (Hact eq_refl) Hrs).
+Qed.
+
+Lemma TG_reach : forall v np ops c, jv_alloc_table v = true -> jreach v np ops c -> TG c.
+Proof.
+  intros v np ops c Hv H. induction H as [|c t c' Hr IH Hs].
+  - intros x px Hx. destruct x; discriminate.
+  - exact (TG_step v c t c' (JR_reach v np ops c Hr) (JE4_reach v np ops c Hv Hr) (JX_reach v np ops c Hv Hr) IH Hs).
+Qed.
+
+(* proxy targets on chains: in a settled (resolved) promise's client table every proxy has been given that promise's
+   result at the proxy's path *)
+Theorem join_proxy_targets : forall v np ops c,
+  jv_alloc_table v = true -> jreach v np ops c ->
+  forall r x res, settled c r -> p_result (getp c r) = Some res -> in_rows c r x ->
+    jx_target (getx c x) = Some (res_dest res (jx_path (getx c x))).
+Proof.
+  intros v np ops c Hv Hr r x res Hst Hres Hin.
+  pose proof (L_set c (JL_reach v np ops c Hr) r x Hst Hin) as Ht. unfold tgt in Ht.
+  destruct (jx_target (getx c x)) as [d|] eqn:Ed; [|congruence]. f_equal.
+  pose proof (V_rows c (JV_reach v np ops c Hr) r x Hin) as Hlt.
+  destruct (nth_error (jproxies c) x) as [px|] eqn:Ex; [|apply nth_error_None in Ex; lia].
+  pose proof (getx_nth _ _ _ Ex) as Eg. rewrite Eg in *.
+  pose proof (TG_reach v np ops c Hv Hr x px Ex d Ed) as He.
+  pose proof (X_rows c (JX_reach v np ops c Hv Hr) r x Hin) as Hn. unfold own in Hn. rewrite Eg in Hn.
+  exact (endd_det c _ _ _ r res He Hn (proj2 Hst) Hres).
+Qed.
